@@ -526,6 +526,9 @@ func (e *goEnv) call(x *CE) gx {
 		s, n, k := a(0), a(1), a(2)
 		rg.helper["member"] = true
 		return gx{"kvcMember(" + s.code + ", int(" + n.code + "), " + e.str(k) + ")", "Bool", nil}
+	case "pair":
+		kt, so := g.resolveType("KVPair")
+		return gx{"KVPair{Key: []byte(" + e.str(a(0)) + "), Value: []byte(" + e.str(a(1)) + ")}", so, kt}
 	case "is":
 		v := a(0)
 		ty, _ := g.resolveType(args[1].Name)
